@@ -383,6 +383,7 @@ impl<'a> Emitter<'a> {
                         let f = self.ident("FI%");
                         format!("{} = {}(({}((1 / {}))))", q, f, f, z)
                     }
+                    FailKind::DivZeroSubCallArg => format!("{} (1 / {})", self.ident("SI"), z),
                     FailKind::DivZeroBuiltInArgs => format!(
                         "{} = {}({}(1 / {}))",
                         q,
@@ -404,15 +405,30 @@ impl<'a> Emitter<'a> {
                     Mode::Append => "APPEND",
                     Mode::Random => "RANDOM",
                 };
-                let mut t = format!(
-                    "{} \"{}\" {} {} {} #{}",
-                    self.kw("OPEN"),
-                    name,
-                    self.kw("FOR"),
-                    self.kw(m),
-                    self.kw("AS"),
-                    handle
-                );
+                // equivalent spellings (non-canonical layouts only): AS without '#', ACCESS
+                // READ on an input file, RANDOM as the default mode
+                let vary = self.layout.seed != 0;
+                let hash = if vary && self.rng.chance(1, 4) { "" } else { "#" };
+                let mut t = if vary && *mode == Mode::Random && self.rng.chance(1, 3) {
+                    format!("{} \"{}\" {} {}{}", self.kw("OPEN"), name, self.kw("AS"), hash, handle)
+                } else {
+                    let access = if vary && *mode == Mode::Input && self.rng.chance(1, 4) {
+                        format!(" {}", self.kw("ACCESS READ"))
+                    } else {
+                        String::new()
+                    };
+                    format!(
+                        "{} \"{}\" {} {}{} {} {}{}",
+                        self.kw("OPEN"),
+                        name,
+                        self.kw("FOR"),
+                        self.kw(m),
+                        access,
+                        self.kw("AS"),
+                        hash,
+                        handle
+                    )
+                };
                 if let Some(l) = len {
                     t.push_str(&format!(" {} = {}", self.kw("LEN"), l));
                 }
@@ -422,7 +438,11 @@ impl<'a> Emitter<'a> {
                 let mut t = self.kw("CLOSE");
                 for (i, h) in hs.iter().enumerate() {
                     t.push_str(if i == 0 { " " } else { ", " });
-                    t.push_str(&format!("#{}", h));
+                    if self.layout.seed != 0 && self.rng.chance(1, 4) {
+                        t.push_str(&format!("{}", h));
+                    } else {
+                        t.push_str(&format!("#{}", h));
+                    }
                 }
                 t
             }
@@ -839,6 +859,13 @@ pub fn emit(sc: &Scenario, layout: &Layout) -> Emitted {
         let t = format!("{} = {}", e.ident("FI%"), e.ident("P1%"));
         e.line(1, &t);
         let t = format!("{} {}", e.kw("END"), e.kw("FUNCTION"));
+        e.line(0, &t);
+    }
+    if uses_fail(sc, FailKind::DivZeroSubCallArg) {
+        // empty SUB called by the failing call statement
+        let t = format!("{} {} ({})", e.kw("SUB"), e.ident("SI"), e.ident("P1%"));
+        e.line(0, &t);
+        let t = format!("{} {}", e.kw("END"), e.kw("SUB"));
         e.line(0, &t);
     }
     if !e.cur.is_empty() {
